@@ -266,6 +266,51 @@ impl<T> Deque<T> {
     }
 }
 
+#[cfg(mini_moka_verif)]
+impl<T> Deque<T> {
+    pub(crate) fn verif_len(&self) -> usize {
+        self.len
+    }
+
+    /// Walks the list from head to tail, checking that the links are symmetric and
+    /// that `len`, `head`, `tail` and the cursor agree with them. Returns the nodes in
+    /// order; problems are appended to `errors`.
+    pub(crate) fn verif_walk(
+        &self,
+        name: &str,
+        errors: &mut Vec<String>,
+    ) -> Vec<NonNull<DeqNode<T>>> {
+        let mut out = Vec::new();
+        let mut prev: Option<NonNull<DeqNode<T>>> = None;
+        let mut cur = self.head;
+        while let Some(n) = cur {
+            if out.len() > self.len {
+                errors.push(format!("{}: more nodes linked than len={}", name, self.len));
+                break;
+            }
+            let r = unsafe { n.as_ref() };
+            if r.prev != prev {
+                errors.push(format!("{}: node {} has a wrong prev link", name, out.len()));
+            }
+            out.push(n);
+            prev = cur;
+            cur = r.next;
+        }
+        if out.len() <= self.len && self.tail != prev {
+            errors.push(format!("{}: tail does not point at the last node", name));
+        }
+        if out.len() != self.len {
+            errors.push(format!("{}: len={} but {} nodes linked", name, self.len, out.len()));
+        }
+        if let Some(DeqCursor::Node(c)) = self.cursor {
+            if !out.contains(&c) {
+                errors.push(format!("{}: cursor points outside the list", name));
+            }
+        }
+        out
+    }
+}
+
 impl<'a, T> Iterator for &'a mut Deque<T> {
     type Item = &'a T;
 
